@@ -5,6 +5,11 @@ def T(shards, checks, steps=0, timeout=900):
     return dict(shards=shards, checks=checks, steps=steps, timeout=timeout)
 
 
+def F(name, fuzztime=60, pkg="props"):
+    """native go fuzz target, thorough tier only"""
+    return dict(fuzz=name, pkg=pkg, thorough=dict(fuzztime=fuzztime))
+
+
 HOOK_COMMITS = []
 NOT_APPLICABLE = {}
 
@@ -144,5 +149,28 @@ CHECKS = {
         assumptions=HIST_ASSUME,
         jobs=[dict(test="TestC12Pow", quick=T(4, 12), thorough=T(8, 400, 0, 3000)),
               dict(test="TestC12Plasma", quick=T(4, 20, 50), thorough=T(8, 200, 80, 3000))],
+    ),
+    "C13": dict(
+        level="exploration",
+        level_text="(a) Round-trip properties over generated AccountBlock (with descendants) / Momentum / DetailedMomentum values "
+                   "with boundary integers, nil vs empty slices, amounts up to 2^256 through protobuf, RLP and JSON: "
+                   "decode(encode(x)) == x field-wise, recomputed hash preserved, encodings stable. (b) Differential: for every "
+                   "unconfirmed block on the producer, variants altering each field outside the hash (changes hash, plasma "
+                   "totals, public key, signature incl. non-canonical S) and inside it are gossiped to a fresh copy of a "
+                   "follower before the block's momentum arrives; afterwards the follower must accept the producer's momentum "
+                   "and hold byte-identical logical store content to a follower that never saw the variant. Stored call data "
+                   "of every accepted contract call equals its canonical ABI repack. (c) thorough: native fuzzing of the three "
+                   "decoders with decode/encode/decode stability as oracle.",
+        level_note="Variants that need the signing key are out of scope by the statement. nil/empty slices and nil/zero amounts "
+                   "are identified. Known finding C13/variant/user-block/ChangesHash is tolerated exactly (that variant kind on "
+                   "user blocks only).",
+        technique="round-trip and differential property-based testing (rapid); native coverage-guided fuzzing of decoders",
+        rule="(a) one generated block + momentum per case; non-trivial = block with >=1 non-zero optional field and >=1 descendant or "
+             "content entry. (b) case = world + 1-3 rounds of unconfirmed blocks x variant kinds (quick: 3 kinds per block, "
+             "thorough: all 16); non-trivial item = (variant kind, block type) accepted by the follower's pool",
+        assumptions=HIST_ASSUME,
+        jobs=[dict(test="TestC13Codec", quick=T(2, 3000), thorough=T(8, 40000, 0, 3000)),
+              dict(test="TestC13Variants", quick=T(6, 8), thorough=T(8, 120, 0, 3000)),
+              F("FuzzC13Proto", 90), F("FuzzC13Rlp", 90), F("FuzzC13Json", 90)],
     ),
 }
